@@ -6,6 +6,11 @@ for S in "$@"; do
   git -C /repo worktree add -q --detach "$WT" HEAD || exit 9
   ( cd /repo && find src -name "*.so" ) | while read f; do cp "/repo/$f" "$WT/$f"; done
   git -C "$WT" apply "$S/patch.diff" || { git -C /repo worktree remove --force "$WT"; echo "$S: patch does not apply"; continue; }
+  if grep -q "_uscan.cc" "$S/patch.diff"; then  # the scanner is compiled: rebuild it from the patched source
+    INC=$(/venv/bin/python -c "import sysconfig;print(sysconfig.get_paths()['include'])")
+    SO=$(ls "$WT"/src/mwlib/parser/token/_uscan*.so)
+    g++ -O1 -shared -fPIC -w -I "$INC" "$WT/src/mwlib/parser/token/_uscan.cc" -o "$SO" || echo "$S: scanner rebuild failed"
+  fi
   r=$(cd "$WT" && PYTHONPATH="$WT/src" /venv/bin/python -m pytest -q -p no:cacheprovider --timeout=300 --deselect tests/qs/test_proc.py --ignore=tests/mwlib/test_odfwriter.py 2>&1 | tail -1)
   echo "$(basename $S): $r"
   git -C /repo worktree remove --force "$WT"
